@@ -27,11 +27,24 @@ Pow(b, e) == IF e = 0 THEN 1 ELSE b * Pow(b, e - 1)
 RECURSIVE Nth(_, _)
 Nth(l, i) == IF l = 0 THEN <<>> ELSE <<Alphabet[(i % N) + 1]>> \o Nth(l - 1, i \div N)
 
+\* operands and operators of [flags] member expressions (part "expr": len = 9)
+ExprAlpha == << "1", "-1", "64", "0x10", "A", "<<", ">>", "|", "&", "(", ")" >>
+NE == Len(ExprAlpha)
+MaxExpr == 4
+RECURSIVE NthE(_, _)
+NthE(l, i) == IF l = 0 THEN <<>> ELSE <<ExprAlpha[(i % NE) + 1]>> \o NthE(l - 1, i \div NE)
+RECURSIVE ExprOfIndex(_, _)
+ExprOfIndex(i, l) == IF i < Pow(NE, l) THEN NthE(l, i) ELSE ExprOfIndex(i - Pow(NE, l), l + 1)
+NExprs == Pow(NE, 1) + Pow(NE, 2) + Pow(NE, 3) + Pow(NE, 4)
+
 Init == len = 0 /\ idx = 0
 \* thorough (4 tokens, 6.8 M strings) is sampled: a Seed-dependent residue class of the indices
 Stride == IF MaxTok = 4 THEN 23 ELSE 1
-Next == \/ len = 0 /\ len' \in 1..MaxTok /\ idx' = 0
-        \/ len > 0 /\ idx = 0 /\ idx' \in {i \in 1..Pow(N, len) : len < 4 \/ (i + Seed) % Stride = 0} /\ UNCHANGED len
+Next == \/ len = 0 /\ len' \in (1..MaxTok) \cup {9} /\ idx' = 0
+        \/ len \in 1..4 /\ idx = 0 /\ idx' \in {i \in 1..Pow(N, len) : len < 4 \/ (i + Seed) % Stride = 0} /\ UNCHANGED len
+        \/ len = 9 /\ idx = 0 /\ idx' \in 1..NExprs /\ UNCHANGED len
 IsCase == idx > 0
-Export == IsCase => PrintT("@@TCASE " \o ToJson([toks |-> Nth(len, idx - 1)]))
+Export == IsCase =>
+   IF len = 9 THEN PrintT("@@ECASE " \o ToJson([expr |-> ExprOfIndex(idx - 1, 1)]))
+   ELSE PrintT("@@TCASE " \o ToJson([toks |-> Nth(len, idx - 1)]))
 =============================================================================
